@@ -148,6 +148,23 @@ func (e *Engine) contractFor(fn *ssa.Function) *Contract {
 	return e.cs.ByKey[funcKey(fn)]
 }
 
+// contractForView: outside the limb view, fr methods are used through their field-view contracts (key@field).
+func (e *Engine) contractForView(fn *ssa.Function, v *View) *Contract {
+	if fn == nil {
+		return nil
+	}
+	if o := fn.Origin(); o != nil {
+		fn = o
+	}
+	k := funcKey(fn)
+	if v != nil && v.Field {
+		if c, ok := e.cs.ByKey[k+"@field"]; ok {
+			return c
+		}
+	}
+	return e.cs.ByKey[k]
+}
+
 func (e *Engine) contractForInvoke(cc *ssa.CallCommon) *Contract {
 	return e.cs.ByKey[invokeKey(cc)]
 }
@@ -246,11 +263,3 @@ func shortUnit(key string) string { return strings.TrimPrefix(key, repoMod+"/") 
 
 // ---------- ghost / protocol hooks (filled in by proto.go) ----------
 
-func (e *Engine) ghostSort(name string) string {
-	if s, ok := ghostSorts[name]; ok {
-		return s
-	}
-	return "Int"
-}
-
-var ghostSorts = map[string]string{}
